@@ -1,5 +1,6 @@
 mod chain;
 mod config;
+mod crypto;
 mod monitors;
 mod report;
 mod rng;
@@ -40,6 +41,10 @@ fn main() {
         "config" => {
             config::run(seed, thorough, &mut rep);
             rep.finish("every Config field x (file absent/present) x (command line absent/given), all 8 credential combinations x 8 placements (file/command line), 13 network names x 3 ports x 2 placements: enumerated completely; plus random joint draws over all fields", true);
+        }
+        "crypto" => {
+            crypto::run(seed, thorough, &mut rep);
+            rep.finish("TESTS (not proofs) of the laws assumed of the primitives, on the real functions: random well-formed transactions of varied structure/size and random ids: round trip, determinism and recipe (recomputed with the AEAD crate), canonical serialisation, other id, bit flips / truncations / extensions / deletions of ciphertexts, all pairs of distinct ids over a 64-element set, sign/recover/verify with altered messages, altered/truncated/garbage signatures, other keys", false);
         }
         "slots" => {
             slots::run(seed, thorough, &mut rep);
